@@ -236,13 +236,16 @@ def check(an, rep, tier):
     # order-2 cap forwarded
     fn = prog.func('anova.ANOVA.cores')
     okf = False
+    am_found = False
+    from .. import roles as _roles0
     for node in ast.walk(fn.node):
         if isinstance(node, ast.Call) and \
                 (prog.dotted(node.func) or '').endswith('add_many'):
-            okf = any(k.arg == 'r' and isinstance(k.value, ast.Name) and
-                      k.value.id == 'r' for k in node.keywords)
+            am_found = True
+            rv_ = _roles0.arg(prog, fn.module, node, 'r')
+            okf = isinstance(rv_, ast.Name) and rv_.id == 'r'
     rep.add('P-forward', 'anova.ANOVA.cores', 'add_many(..., r=r)',
-            'ok' if okf else 'violation',
+            'ok' if okf else ('violation' if am_found else 'unknown'),
             '' if okf else 'the requested rank is not forwarded to the '
             'rounding of the order-2 sum')
     # --- P-order
@@ -257,41 +260,46 @@ def check(an, rep, tier):
             'ok' if seq == ['build_0', 'build_1', 'build_2'] else 'violation',
             'the constant must be known before the first-order terms, and '
             'those before the pair terms')
+    # first-order term: the value stored per (mode, index) is
+    #     <mean of the selected samples>  -  self.f0
+    # as a symbolic value on every path to the store (rules_sym)
+    from .. import rules_sym as _rs
     fn = prog.func('anova.ANOVA.build_1')
     mod = fn.module
-    ok = False
-    for node in ast.walk(fn.node):
-        if isinstance(node, ast.Assign) and \
-                isinstance(node.value, ast.BinOp) and \
-                isinstance(node.value.op, ast.Sub):
-            l_, r_ = node.value.left, node.value.right
-            ipar, ypar = fn.params[1], fn.params[2]      # (self, I_trn, y_trn)
-            is_f0 = isinstance(r_, ast.Attribute) and r_.attr == 'f0' and \
-                isinstance(r_.value, ast.Name) and r_.value.id == 'self'
-            is_cmean = isinstance(l_, ast.Call) and \
-                (prog.dotted(l_.func) or '').endswith('mean') and \
-                len(l_.args) == 1 and \
-                isinstance(l_.args[0], ast.Subscript) and \
-                isinstance(l_.args[0].value, ast.Name) and \
-                l_.args[0].value.id == ypar and \
-                isinstance(l_.args[0].slice, ast.Name)
-            if is_f0 and is_cmean:
-                mname = l_.args[0].slice.id
-                # the mask selects the samples whose k-th index equals x
-                for n2 in ast.walk(fn.node):
-                    if isinstance(n2, ast.Assign) and \
-                            isinstance(n2.targets[0], ast.Name) and \
-                            n2.targets[0].id == mname and \
-                            isinstance(n2.value, ast.Compare) and \
-                            len(n2.value.ops) == 1 and \
-                            isinstance(n2.value.ops[0], ast.Eq) and \
-                            any(isinstance(x, ast.Name) and x.id == ipar
-                                for x in ast.walk(n2.value)):
-                        ok = True
-    rep.add('P-order', 'anova.ANOVA.build_1', 'value = mean(y_trn[mask]) - f0',
-            'ok' if ok else 'violation',
-            '' if ok else 'the first-order term is no longer "conditional '
-            'mean minus the constant"')
+    st1 = [n for n in ast.walk(fn.node) if isinstance(n, ast.Assign) and
+           isinstance(n.targets[0], ast.Subscript) and
+           isinstance(n.targets[0].value, ast.Name) and
+           isinstance(n.value, ast.Name)]
+    decided = False
+    for st_ in st1:
+        for gs_, val in _rs.values_at(fn.node, st_, st_.value.id):
+            if val is None:
+                continue
+            num = val.reduced()
+            coeffs = {}
+            lin = True
+            for mono, c in num.n.t.items():
+                if len(mono) != 1 or mono[0][1] != 1:
+                    lin = False
+                    continue
+                coeffs[mono[0][0]] = c
+            means = [a_ for a_, c in coeffs.items() if 'mean(' in str(a_)]
+            if not means:
+                continue            # not the store of a first-order term
+            decided = True
+            ypar = fn.params[2]
+            ok = lin and len(coeffs) == 2 and len(means) == 1 and \
+                coeffs[means[0]] == 1 and ('%s[' % ypar) in str(means[0]) and \
+                any(str(a_).endswith('.f0') and c == -1
+                    for a_, c in coeffs.items())
+            rep.add('P-order', 'anova.ANOVA.build_1', 'value = mean(y_trn['
+                    'mask]) - f0', 'ok' if ok else 'violation',
+                    '' if ok else 'the stored first-order term is %r, not '
+                    '"conditional mean minus the constant"' % (num,),
+                    line=st_.lineno, file=mod.path)
+    if not decided:
+        rep.unknown('P-order', 'anova.ANOVA.build_1', 'value = mean(y_trn['
+                    'mask]) - f0', 'store of the first-order term not found')
     # --- T-pair-term: the stored pair term is 0 when the pair was never
     # observed and  mean - f0 - f1 - f1  otherwise (path-wise symbolic value)
     from .. import rules_sym
